@@ -215,11 +215,16 @@ def run(ctx: lib.Ctx) -> None:
             violate(f'ViewSection.match {why}', {'name': name, 'code': code, 'accepted': ok, 'spec_accepts': want, 'error': None if ok else repr(val)[:300],
                     'repro': "ViewSection.match({'prim':'view','args':[{'string':name},{'prim':'unit'},{'prim':'unit'},code]})"})
 
-    bad = ctx.coq_mismatches('view', IMPORTS, 'chk', 'Bool.eqb', 'bytes * node', 'bool', cases, prelude=PRELUDE, shard=ctx.n(150, 400))
+    eval_error = None
+    try:
+        bad = ctx.coq_mismatches('view', IMPORTS, 'chk', 'Bool.eqb', 'bytes * node', 'bool', cases, prelude=PRELUDE, shard=ctx.n(150, 400))
+    except lib.InternalError as e:   # never crash on what a modified implementation produced
+        bad, eval_error = [], str(e)[-1500:]
     ctx.extra['cases'] = len(cases)
-    if violations == 0 and bad:
-        i = min(bad, key=lambda j: len(cases[j][0]))
-        name, code, ok, val = meta[i]
-        violate('implementation no longer corresponds to the model the theorems are about',
-                {'correspondence': 'C32/ViewSection.match vs Michelson.View.view_accepts', 'disagreements': len(bad), 'name': name, 'code': code,
-                 'impl_accepts': ok, 'model': ctx.coq_eval(IMPORTS, f'chk {cases[i][0]}', prelude=PRELUDE)[:500]}, found=False)
+    if violations == 0 and (bad or eval_error):
+        rep = {'correspondence': 'C32/ViewSection.match vs Michelson.View.view_accepts', 'disagreements': len(bad), 'model_evaluation_error': eval_error}
+        if bad:
+            i = min(bad, key=lambda j: len(cases[j][0]))
+            name, code, ok, val = meta[i]
+            rep.update({'name': name, 'code': code, 'impl_accepts': ok, 'model': ctx.coq_eval(IMPORTS, f'chk {cases[i][0]}', prelude=PRELUDE)[:500]})
+        violate('implementation no longer corresponds to the model the theorems are about', rep, found=False)
